@@ -153,7 +153,9 @@ func determineCompletionContext(content string, pos protocol.Position, ctx *prot
 		return ContextAccount
 	}
 
-	if strings.HasPrefix(line, "    ") || strings.HasPrefix(line, "\t") {
+	// Any indented line belongs to a transaction, as in the parser: hledger does not ask for
+	// a particular width.
+	if strings.HasPrefix(line, " ") || strings.HasPrefix(line, "\t") {
 		return determinePostingContext(line, pos)
 	}
 
